@@ -1558,23 +1558,22 @@ def has_perm(user, perm, x):
                                                    and attr not in rule.attrs_to_exclude:
                 result = True
                 break
+        else:
             reverse = attr.reverse
             if reverse:
-                reverse_rules = reverse.entity._access_rules_.get(perm)
-                if not reverse_rules: return False
-                for reverse_rule in access_rules:
+                reverse_rules = reverse.entity._access_rules_.get(perm) or ()
+                for reverse_rule in reverse_rules:
                     if user_groups.issuperset(reverse_rule.groups) \
                             and reverse.entity not in reverse_rule.entities_to_exclude \
                             and reverse not in reverse_rule.attrs_to_exclude:
                         result = True
                         break
-                if result: break
     else:
         obj = x
         user_roles = get_user_roles(user, obj)
         obj_labels = get_object_labels(obj)
         for rule in access_rules:
-            if x in rule.entities_to_exclude: continue
+            if entity in rule.entities_to_exclude: continue
             elif not user_groups.issuperset(rule.groups): pass
             elif not user_roles.issuperset(rule.roles): pass
             elif not obj_labels.issuperset(rule.labels): pass
